@@ -2,14 +2,15 @@
 import os, re, itertools
 from vlib import core, ccv
 from vlib.core import Ob
+import time
 
 CDIR = os.path.join(core.VERIF, 'contracts', 'C03')
 META = {
     'level': 'proof', 'functions': [],
-    'trusted_base': ['CBMC 6.11 C++ front end, SAT back end, IEEE-754 encoding', 'stub classes standing for nblistgrid.h / Eigen / NDimVector (member names as in the header)'],
+    'trusted_base': ['RVC executor + exact normal form + z3 for the geometry obligations (real arithmetic; abs / max / double->Index truncation by contract)', 'CBMC 6.11 C++ front end, SAT back end, IEEE-754 encoding', 'stub classes standing for nblistgrid.h / Eigen / NDimVector (member names as in the header)'],
     'assumptions': ['|r . norm| < 2^62 (beyond that the float-to-index conversion in getCell is undefined, like every (Index)floor(x))'],
-    'not_decided': ['that cells one cutoff thick plus the 27-neighbourhood find every pair within the cutoff (geometric argument over triclinic cells)', 'exactly-once delivery through PairList::FindPair (std::map)',
-                    'the simple O(N^2) lists, the three-body enumeration, exclusions (std::list / std::map)', 'cross/normalize geometry inside InitializeGrid (nondeterministic stubs)'],
+    'not_decided': ['the COMPOSITION of the geometry lemmas (count, reciprocal normals, projection < 1, floor, getCell congruence, neighbour sets) into "every pair within the cutoff is examined" is a paper argument over machine-checked pieces', 'exactly-once delivery through PairList::FindPair (std::map)',
+                    'the simple O(N^2) lists, the three-body enumeration, exclusions (std::list / std::map)', 'in the CBMC runs cross/normalize inside InitializeGrid are nondeterministic stubs (the geometry is decided separately on the AST, real arithmetic)'],
 }
 TARGETS = {'NBListGrid': 'csg/src/libcsg/nblistgrid.cc', 'NBListGrid_3Body': 'csg/src/libcsg/nblistgrid_3body.cc'}
 
@@ -53,6 +54,111 @@ def job_initgrid(cls, ka, kb, kc):
     return obs
 
 
+class StopExec(Exception):
+    pass
+
+
+def job_geometry(cls, seed):
+    """geometric completeness of the cell search: the part of InitializeGrid that computes the cell counts and the scaled normals (executed from the AST, RVC route),
+    and the lemma chain from there to 'a bead within the cutoff lies in the same or an adjacent cell (mod N) in every direction'"""
+    import sympy as sp, z3
+    from vlib import rvc
+    from vlib.rvc import D, Mx, Exec, Ret, SInt
+    rvc.reset()
+    rel = TARGETS[cls]
+    fns = rvc.functions(rvc.ast(rel, cls + '::InitializeGrid'))
+    if 'InitializeGrid' not in fns:
+        raise core.Undecided('front end: %s::InitializeGrid not found' % cls)
+    fn = fns['InitializeGrid'][0]
+    F = cls + '::InitializeGrid'
+    box = Mx.sym('h', 3, 3)
+    cut = sp.Symbol('cut', positive=True)
+    absargs, ints, maxes = [], [], []
+    def c_abs(x):
+        k = len(absargs)
+        a = sp.Symbol('A%d' % k, nonnegative=True)
+        absargs.append((a, D.lift(x).v))
+        return D(a)
+    def c_max(a, b):
+        k = len(maxes)
+        m = sp.Symbol('M%d' % k, positive=True)
+        maxes.append((m, D.lift(a).v, D.lift(b).v))
+        return D(m)
+    def to_int(v):
+        k = len(ints)
+        n = sp.Symbol('N%d' % k, integer=True, positive=True)
+        ints.append((n, D.lift(v).v))
+        return SInt(n)
+    def construct(ex_, n, ty, args):
+        if 'NDimVector' in ty:
+            raise StopExec()
+        return NotImplemented
+    class Grid:
+        def resize(s_, *a): raise StopExec()
+    this = {'__class__': cls, 'grid_': Grid(), 'cutoff_': D(cut), 'box_a_': Mx(3, 1), 'box_b_': Mx(3, 1), 'box_c_': Mx(3, 1), 'norm_a_': Mx(3, 1), 'norm_b_': Mx(3, 1), 'norm_c_': Mx(3, 1),
+            'box_Na_': SInt(sp.Symbol('u0', integer=True)), 'box_Nb_': SInt(sp.Symbol('u1', integer=True)), 'box_Nc_': SInt(sp.Symbol('u2', integer=True))}
+    ex = Exec({'box': box}, {'abs': c_abs, 'max': c_max, 'to_int': to_int, 'construct': construct}, {}, this)
+    try:
+        ex.stmt(rvc.body_of(fn))
+        raise core.Undecided('InitializeGrid: the grid allocation was not reached')
+    except StopExec:
+        pass
+    except Ret:
+        raise core.Undecided('InitializeGrid returned before the grid allocation')
+    obs = []
+    bound = None
+    cols = [box.col(0), box.col(1), box.col(2)]
+    names = 'abc'
+    ok_shape = len(absargs) == 3 and len(maxes) == 3 and len(ints) == 3
+    obs.append(Ob('C03.%s.geometry/shape' % cls, F, 'one |l/cutoff|, one max(.,1) and one truncation per direction', 'RVC', 'symbolic execution', core.PROVED if ok_shape else core.REFUTED, 0, '%d %d %d' % (len(absargs), len(maxes), len(ints)), witness=None if ok_shape else {}))
+    if not ok_shape:
+        return obs
+    vol = cols[0].dot(cols[1].cross(cols[2]))
+    for k in range(3):
+        A, x = absargs[k]; M, m1, m2 = maxes[k]; N, nv = ints[k]
+        sn = this['norm_%s_' % names[k]]
+        Nk = this['box_N%s_' % names[k]]
+        d = names[k]
+        okN = isinstance(Nk, SInt) and Nk.e == N and m1 == A and m2 == 1 and nv == M
+        obs.append(Ob('C03.%s.geometry/%s.count' % (cls, d), F, 'cell count N_%s = trunc(max(|l_%s / cutoff|, 1))' % (d, d), 'RVC', 'symbolic execution', core.PROVED if okN else core.REFUTED, 0, str((Nk, m1, m2, nv))[:200], witness=None if okN else {}))
+        # l_k: height of the box along the plane normal = volume / base area
+        base = cols[(k + 1) % 3].cross(cols[(k + 2) % 3])
+        l2 = (vol * vol / base.squaredNorm()).v
+        obs.append(rvc.identity('C03.%s.geometry/%s.height' % (cls, d), F, '(argument of abs)^2 * cutoff^2 == (box height along normal %s)^2 = volume^2 / |base area|^2' % d, x ** 2 * cut ** 2, l2, seed))
+        for j in range(3):
+            obs.append(rvc.identity('C03.%s.geometry/%s.reciprocal%d' % (cls, d, j), F, 'scaled normal %s . box vector %s == %s (fractional coordinate times the cell count: a lattice shift moves a bead by whole multiples of N cells in its own direction only)' % (d, names[j], 'N_' + d if j == k else '0'),
+                                    sn.dot(cols[j]).v, N if j == k else 0, seed))
+        obs.append(rvc.identity('C03.%s.geometry/%s.length' % (cls, d), F, '|scaled normal %s|^2 * height^2 == N_%s^2 (cell thickness = height / N)' % (d, d), sn.squaredNorm().v * l2, N ** 2, seed))
+    # contract-level lemmas (z3): from the callee contracts to 'within the cutoff => adjacent cell'
+    t0 = time.time()
+    A, M, c, S2, D2, T, l2 = z3.Reals('A M c S2 D2 T l2')
+    N = z3.Int('N')
+    facts = [A >= 0, M == z3.If(A >= 1, A, 1), N <= M, M < N + 1, c > 0, l2 == A * A * c * c, S2 * l2 == z3.ToReal(N) * z3.ToReal(N), D2 >= 0, D2 < c * c, T >= 0, T <= D2 * S2]
+    def prove(oid, clause, claim, extra=()):
+        sol = z3.Solver(); sol.set('timeout', 60000); sol.add(*facts); sol.add(*extra); sol.add(z3.Not(claim))
+        r = sol.check()
+        st = core.PROVED if r == z3.unsat else (core.REFUTED if r == z3.sat else core.UNDECIDED)
+        obs.append(Ob(oid, F, clause, 'RVC', 'z3 %s (nonlinear real/int)' % z3.get_version_string(), st, time.time() - t0, str(r), witness=None if st != core.REFUTED else {'model': str(sol.model())[:300]}))
+    prove('C03.%s.geometry/lemma.count' % cls, 'N >= 1, and N >= 2 implies N * cutoff <= box height (every cell is at least one cutoff thick whenever there is more than one)', z3.And(N >= 1, z3.Implies(N >= 2, z3.ToReal(N) <= A)))
+    prove('C03.%s.geometry/lemma.projection' % cls, 'for N >= 2: |d| < cutoff implies |d . scaled normal| < 1 (Cauchy-Schwarz (d.s)^2 <= |d|^2 |s|^2, |s| = N / height <= 1 / cutoff)', T < 1, extra=[N >= 2])
+    # Lagrange identity behind the Cauchy-Schwarz premise
+    dv, sv = Mx.sym('d', 3), Mx.sym('s', 3)
+    obs.append(rvc.identity('C03.%s.geometry/lemma.cauchy' % cls, F, '|d|^2 |s|^2 - (d.s)^2 == |d x s|^2 >= 0', (dv.squaredNorm() * sv.squaredNorm() - dv.dot(sv) * dv.dot(sv)).v, dv.cross(sv).squaredNorm().v, seed))
+    # floor lemma: p(v) = p(u) + delta - k N with |delta| < 1 => floor(p(v)) - floor(p(u)) + k N in {-1, 0, 1}
+    p, dl = z3.Reals('p dl'); fu, fv, k, Nn = z3.Ints('fu fv k Nn')
+    sol = z3.Solver(); sol.set('timeout', 60000)
+    sol.add(Nn >= 1, fu <= p, p < fu + 1, dl > -1, dl < 1, fv <= p + dl - z3.ToReal(k * Nn), p + dl - z3.ToReal(k * Nn) < fv + 1)
+    sol.add(z3.Not(z3.And(fv - fu + k * Nn >= -1, fv - fu + k * Nn <= 1)))
+    r = sol.check()
+    st = core.PROVED if r == z3.unsat else (core.REFUTED if r == z3.sat else core.UNDECIDED)
+    obs.append(Ob('C03.%s.geometry/lemma.floor' % cls, F, 'p(v) = p(u) + delta - k N, |delta| < 1 (delta = min-image vector . scaled normal, k = lattice coefficient, C02) implies floor(p(v)) - floor(p(u)) is -1, 0 or 1 modulo N: the partner bead lies in the same or an adjacent cell, which getCell (index congruent to floor(p) mod N) and the neighbour sets (offsets {-1,0,1} mod N) cover',
+                  'RVC', 'z3 %s (linear real/int)' % z3.get_version_string(), st, time.time() - t0, str(r), witness=None if st != core.REFUTED else {'model': str(sol.model())[:300]}))
+    mf = [{'name': F, 'file': rel, 'ast_nodes': rvc.node_count(fn), 'route': 'RVC (AST of the real translation unit; executed up to the grid allocation)'}]
+    for o in obs:
+        o['functions'] = mf
+    return obs
+
+
 def collect(obs):
     seen = set(f['name'] for f in META['functions'])
     for o in obs:
@@ -78,6 +184,7 @@ def run(tier, seed, only=None):
         confs = [c for c in confs if max(c) <= 3] + [(4, 1, 2), (2, 4, 1), (1, 2, 4)]
     jobs += [(job_initgrid, ('NBListGrid', a, b, c)) for a, b, c in confs]
     jobs += [(job_initgrid, ('NBListGrid_3Body', a, b, c)) for a, b, c in confs3]
+    jobs += [(job_geometry, (cls, seed)) for cls in TARGETS]
     if only:
         jobs = [j for j in jobs if re.search(only, j[0].__name__ + str(j[1]))]
     obs = core.pmap(jobs)
